@@ -78,3 +78,19 @@ Theorem C17_store_error_retries : forall O r k r2 e above a below,
   rt_execute O r k = Ok (set_state (set_pc (set_stack r2 below) a) StInputRedo, EvRunning).
 Proof. exact store_error_retries. Qed.
 Print Assumptions C17_store_error_retries.
+
+(* ---- number syntax of a field: the & forms read back what HEX$ / OCT$ print (Proofs/Strings2.v) ---- *)
+From BL Require Import Proofs.Strings2.
+
+Theorem C17_field_reads_hex : forall n, (0 <= n <= 32767)%Z ->
+  exists s, fn_hex (VInt n) = Ok (VStr s) /\ val_from_str (38 :: 72 :: s) = VInt n.
+Proof. exact val_reads_hex. Qed.
+Print Assumptions C17_field_reads_hex.
+
+Theorem C17_field_reads_oct : forall n, (0 <= n <= 32767)%Z ->
+  exists s, fn_oct (VInt n) = Ok (VStr s) /\ val_from_str (38 :: s) = VInt n.
+Proof. exact val_reads_oct. Qed.
+Print Assumptions C17_field_reads_oct.
+
+Example C17_field_hex_example : val_from_str (38 :: 72 :: 55 :: 70 :: nil) = VInt 127 /\ val_from_str (38 :: 49 :: 55 :: nil) = VInt 15.
+Proof. split; vm_compute; reflexivity. Qed.
